@@ -15,7 +15,7 @@ Structural clauses decided (DESIGN.md section 4, C09):
 import re
 
 from facts import short_name, AnchorMissing
-from kinds import (rel, result_blocks, comparisons, find_cmp, k1_callers, k2_site_guarded,
+from kinds import (exhaustive_loops, rel, result_blocks, comparisons, find_cmp, k1_callers, k2_site_guarded,
                    arith_sites, div_before_mul, k7_panics, bool_const_return_blocks)
 
 CRATES = ["astria_conductor.lib", "astria_core.lib", "astria_merkle.lib",
@@ -438,6 +438,9 @@ def q4(prog, rep, rule="Q4"):
     fn = RC + "reconstruct_blocks_from_verified_blobs"
     body = prog.main_body(fn)
     rm = body.calls_to(RC + "remove_header_blob_matching_rollup_blob")
+    exhaustive_loops(rep, rule, body, r"into_parts\(verified_blobs\)", 2,
+                     "verified rollup blobs / left-over headers",
+                     "the remaining blobs of this Celestia height would never be reconstructed")
     rep.floor(rule, len(rm), 1, "remove_header_blob_matching_rollup_blob call")
     aggs = list(body.aggregates("adt", r"ReconstructedBlock$"))
     rep.floor(rule, len(aggs), 2, "ReconstructedBlock construction sites")
